@@ -103,6 +103,7 @@ def _trunc(o, lim=160):
 
 _XS = {}
 _OWNER = None
+REPLAYING = False     # set while a saved case is re-executed (checks with stateful tools start them afresh)
 _CHECKS = {}
 
 
@@ -236,7 +237,9 @@ def replay_case(pid, rec, times=3):
     if test is None:
         return ["unknown test %s" % rec["test"]]
     errs = []
+    global REPLAYING
     for _ in range(times):
+        REPLAYING = True
         try:
             if test.kind == "sweep":
                 ctx = Ctx(rec["config"], tier)
@@ -250,6 +253,8 @@ def replay_case(pid, rec, times=3):
                 _run_case(test, rec["case"], tier, [rec["config"]])
         except (Fail, Crash) as e:
             errs.append("%s: %s" % (type(e).__name__, e))
+        finally:
+            REPLAYING = False
     return errs
 
 
